@@ -303,6 +303,17 @@ def grid_size(ctx, kind, n):
     ctx.check_true('grid.size', len(pts) == total, str(len(pts)))
     ctx.check_eq_vec('grid.first_is_corner', pts[0], P[0])
     ctx.check_eq_vec('grid.last_is_corner', pts[-1], P[-1])
+    # a rejected density request (delta outside (0, 1), i.e. fewer than two samples) leaves the sampling as it was
+    names = {'curve': ['delta'], 'surface': ['delta_u', 'delta_v'], 'volume': ['delta_u', 'delta_v', 'delta_w']}[kind]
+    before = [getattr(shp, nm) for nm in names]
+    for nm in names:
+        for bad in (L(1), L(Fraction(5, 2)), L(Fraction(-1, 2)), L(0)):
+            ctx.check_raises('reject.%s' % nm, ValueError, setattr, shp, nm, bad)
+    ctx.check_true('reject.deltas_unchanged', [getattr(shp, nm) for nm in names] == before,
+                   'deltas %r after the rejected requests, %r before' % ([getattr(shp, nm) for nm in names], before))
+    pts2 = shp.evalpts
+    ctx.check_true('reject.grid.size_unchanged', len(pts2) == total, str(len(pts2)))
+    ctx.check_eq_vec('reject.grid.last_is_corner', pts2[-1], P[-1])
 
 
 # ------------------------------------------------------------------------------------------------
